@@ -117,6 +117,10 @@ def run_scenario(rng, chooser_kind, order=None, params=None):
 
 # -- uncontrolled tier: unmodified listener on loopback sockets --------------
 
+STOP_WATCHDOG = 45      # seconds a stop() may take before it counts as hanging
+#                         (the listener's own waits are 2 s queue polls)
+
+
 def free_port():
     so = socket.socket()
     so.bind(("127.0.0.1", 0))
@@ -186,11 +190,20 @@ def run_real(rng, nsenders, nind, ncb, maxq, slow):
     for t in ths:
         t.start()
     time.sleep(rng.choice([0.0, 0.01, 0.05]))
-    try:
-        listener.stop()
-        exc = ""
-    except Exception as e:  # noqa
-        exc = type(e).__name__
+    # stop() under a watchdog: a stop() that never returns must end up as an
+    # event of the trace, not as a hanging check
+    box = {}
+
+    def stopper():
+        try:
+            listener.stop()
+            box["exc"] = ""
+        except Exception as e:  # noqa
+            box["exc"] = type(e).__name__
+    st = threading.Thread(target=stopper, daemon=True)
+    st.start()
+    st.join(STOP_WATCHDOG)
+    exc = box.get("exc", "StopDidNotReturn")
     for t in ths:
         t.join(20)
     left = [t for t in threading.enumerate()
@@ -282,7 +295,7 @@ def run_real_inflight(rng, ncb, registration):
                 t.is_alive()]
         emit(ev="stop_returned", exc=exc, threads=len(left),
              server_closed=True)
-    st = threading.Thread(target=stopper)
+    st = threading.Thread(target=stopper, daemon=True)
     st.start()
     time.sleep(0.4)          # stop() is in progress (or, wrongly, finished)
     kind = "dropped"
@@ -300,9 +313,9 @@ def run_real_inflight(rng, ncb, registration):
     finally:
         so.close()
     emit(ev="resp", s="s1", n=1, kind=kind)
-    st.join(30)
+    st.join(STOP_WATCHDOG)
     if st.is_alive():
-        emit(ev="stop_returned", exc="StopHangs", threads=1,
+        emit(ev="stop_returned", exc="StopDidNotReturn", threads=1,
              server_closed=False)
     time.sleep(0.2)
     emit(ev="end", outcome="done")
